@@ -32,7 +32,7 @@ ASSUMPTIONS = [
 PROBES = ["ops", "plain_ops", "show_ops", "save_ops", "show_and_save_ops", "bulk_save_ops", "bulk_save_all_invalid", "bulk_save_empty",
           "outcome_unchanged", "outcome_fixed", "outcome_failed", "preview_hsl", "preview_alpha", "preview_tuple", "preview_named",
           "plain_after_preview", "report_files_written", "tty_runs", "no_color_runs", "decoy_runs", "subprocess_phase",
-          "slot_ops", "invalid_pair_with_show", "chdir_ops", "report_after_chdir", "force_color_env_runs", "big_bulk_ops", "tmpdir_on_other_filesystem_runs", "report_blocked_ops", "save_with_report_blocked", "heavy_distinct_fix_ops", "odd_directory_names", "minimal_stdout_runs", "import_time_stdout_closed_runs", "iterator_container_ops", "non_utf8_locale_phase"]
+          "slot_ops", "invalid_pair_with_show", "chdir_ops", "report_after_chdir", "force_color_env_runs", "big_bulk_ops", "tmpdir_on_other_filesystem_runs", "report_blocked_ops", "save_with_report_blocked", "heavy_distinct_fix_ops", "odd_directory_names", "minimal_stdout_runs", "import_time_stdout_closed_runs", "iterator_container_ops", "non_utf8_locale_phase", "caller_source_raised_ops", "ops_from_worker_thread"]
 
 QUICK = "cm_colors_quick_report.html"
 BULK = "cm_colors_bulk_report.html"
@@ -42,6 +42,8 @@ def _pair(rng, vr=False):
     bg = gen.rand_rgb(rng)
     large = rng.random() < 0.25
     thr = refs.target_ratio(premium=vr, large=large)
+    if rng.random() < 0.1:
+        large = rng.choice((1, 1, None) if large else (0, None, None))  # a truthy / falsy flag that is not a bool
     band = rng.choice(("pass", "pass-hair", "fix", "fix", "fix-hair", "mid", "hard", "same", "random"))
     trgb, _ = gen.pick_text(rng, bg, thr, band)
     m = rng.random()
@@ -52,7 +54,7 @@ def _pair(rng, vr=False):
         t, tk = gen.spell(rng, trgb, gen.CSS_SPELLINGS + gen.API_ONLY_SPELLINGS + ("hsl", "hsl") + (gen.EXOTIC_API_SPELLINGS if rng.random() < 0.3 else ()))
     b, _ = gen.spell(rng, bg, gen.CSS_SPELLINGS + gen.API_ONLY_SPELLINGS + (gen.EXOTIC_API_SPELLINGS if rng.random() < 0.2 else ()))
     if rng.random() < 0.07:
-        t = rng.choice(gen.POISON_STR + gen.POISON_OBJ)
+        t = rng.choice(gen.POISON_STR + gen.POISON_OBJ + gen.NEAR_CSS)
         tk = "poison"
     if rng.random() < 0.04:
         b = rng.choice(gen.POISON_STR)
@@ -101,9 +103,11 @@ def generate(rseed, tier, idx):
                 op["save"] = True
             if (op.get("show") or op.get("save")):
                 op["plain_first"] = g.random() < 0.5  # same-process plain call issued before (True) or after (False)
+            if g.random() < 0.12:
+                op["thread"] = True  # issued from a worker thread, not the thread that imported cm_colors
             ops.append(op)
         elif m < 0.82:
-            kind = g.choice(("normal", "normal", "normal", "empty", "all-invalid", "big")) if g.random() > 0.02 else "big-fix"
+            kind = g.choice(("normal", "normal", "normal", "empty", "all-invalid", "big", "raising")) if g.random() > 0.02 else "big-fix"
             pairs = []
             if kind == "big-fix":
                 # VOLUME: several hundred distinct pairs that all need fixing (strict mode keeps it cheap)
@@ -115,12 +119,12 @@ def generate(rseed, tier, idx):
             if kind == "big":
                 # a large batch of cheap (already readable) pairs: anything that only happens "for big inputs"
                 k0 = g.randrange(1 << 20)
-                for j in range(g.choice((25, 40, 120))):
+                for j in range(g.choice((25, 40, 120, 120, 260, 450))):
                     pairs.append([enc("#%06x" % (((k0 + 7919 * j) % (1 << 24)) & 0x3f3f3f)), enc("#ffffff")])
                 for _ in range(g.randint(0, 2)):
                     t, b, large, tk = _pair(g, vr)
                     pairs.insert(g.randrange(len(pairs)), [t, b])
-            if kind == "normal":
+            if kind in ("normal", "raising"):
                 for _ in range(g.randint(1, 4)):
                     t, b, large, tk = _pair(g, vr)
                     pairs.append([t, b] if g.random() < 0.6 else [t, b, large])
@@ -129,9 +133,15 @@ def generate(rseed, tier, idx):
                     pairs.append([enc(g.choice(gen.POISON_STR)), enc(g.choice(gen.POISON_STR + ["#fff"]))])
                     pairs[-1][0] = enc(g.choice(gen.POISON_STR))
             op = {"op": "bulk", "pairs": pairs, "mode": mode, "vr": vr, "bkind": kind, "container": g.choice(("list", "list", "tuple", "iter", "gen"))}
+            if kind == "raising":
+                # the caller's data source raises after some entries: the call raises (with or without save_report)
+                op["container"] = "gen-raise"
+                op["raise_at"] = g.randint(0, len(pairs))
             if g.random() < 0.55 and kind != "big-fix":
                 op["save"] = True
                 op["plain_first"] = g.random() < 0.5
+            if g.random() < 0.1:
+                op["thread"] = True
             ops.append(op)
         elif m < 0.9 or nslots == 0:
             t, b, large, tk = _pair(g)
@@ -276,8 +286,10 @@ def execute(trace):
             orc = oracles[i]
             if sop["op"] in ("newpair", "make_on", "readable_on"):
                 bump("slot_ops")
-            if op.get("container") in ("iter", "gen"):
+            if op.get("container") in ("iter", "gen", "gen-raise"):
                 bump("iterator_container_ops")
+            if op.get("thread"):
+                bump("ops_from_worker_thread")
             if op.get("bkind") in ("big", "big-fix"):
                 bump("big_bulk_ops")
             if op.get("bkind") == "big-fix":
@@ -332,7 +344,15 @@ def execute(trace):
                     V("unexpected-file", i, op, paths=left, note="report could not be written (its name is a directory); something else was left behind")
                 continue
             if "exc" in r:
-                V("preview-raised", i, op, exc=r["exc"])
+                if op.get("bkind") == "raising" and "data source failed" in r["exc"] and orc["plain"].get("exc") == r["exc"]:
+                    # the caller's own iterator raised: the call raises exactly as the plain call does; whatever was
+                    # collected so far must not leak anywhere but (at most) the documented report
+                    bump("caller_source_raised_ops")
+                    left = sorted(t for t in set(fxs["created"]) | set(fxs["changed"]) | set(fxs["removed"]) if t != cur[0] + "/" + BULK)
+                    if left:
+                        V("unexpected-file", i, op, paths=left, note="the caller's data source raised during a save_report call")
+                else:
+                    V("preview-raised", i, op, exc=r["exc"])
                 continue
             if "ret" in orc["plain"]:
                 if r["ret"] != orc["plain"]["ret"]:
@@ -380,6 +400,9 @@ def execute(trace):
                             touched.add(rel)
                     elif pth.startswith("/") and not (fxs.get("tmpdir") and pth.startswith(fxs["tmpdir"])):
                         touched.add(pth)
+            bad = sorted(t for t in touched if t not in allowed)
+            if bad:
+                V("unexpected-file", i, op, paths=bad, allowed=sorted(allowed))
             if must:
                 wrote = any(e[0] == "open" and e[1] == must and "w" in e[2] and e[3] == "ok" for e in fxs["io"]) or must in fxs["created"] or must in fxs["changed"]
                 if wrote:
